@@ -267,6 +267,7 @@ func (m *Machine) vrtCall(name string, a []Value) Value {
 		m.sideEffect("vrt.Known")
 		if m.knownKeys[str(0)] {
 			m.knownActive[str(0)] = a[1].(*Term)
+			m.res.TouchedKnown = true
 		}
 		return nil
 	case "Tier":
